@@ -21,6 +21,8 @@ CLAIMS["C19"] = ("type-level facts for every static of both crates (no static mu
                  "static analysis: compiler type facts + who-may-access + dataflow over MIR")
 CLAIMS["C03"] = ("pairing/ordering facts on Writer and Block: rollback of the pending buffer on a failed append, count-once after successful encode, flush order (compress, count, size, payload, marker, clear/reset), header-once, Drop/into_inner flush, reader bookkeeping after successful decode, extend = append-per-item + flush",
                  "static analysis: dominance / post-dominance / edge-region pairing rules over MIR")
+CLAIMS["C18"] = ("header constants and fingerprint byte order in the header builder, reader header gate (read_exact of expected length, whole-vector compare, mismatch edge is Err, decode dominated by the Ok edge), writer buffer save/truncate pairing by post-dominance, validate-before-first-sink-write in the typed writers",
+                 "static analysis: aggregate/constant inspection + dominance / post-dominance rules over MIR")
 NA_DEFAULT = "check under construction in this round (see DESIGN.md); not yet claimed"
 
 
